@@ -397,4 +397,22 @@ PROPS = {
             "in this sandbox the driver runs against devshim/cachebox (TTLCache with expiry on lookup), not the compiled cachebox",
         ],
     },
+    "C08": {
+        "category": "other",
+        "harness_modes": ["crosscheck"],
+        "explanation": "Fragment. Proved for the base Token: save() writes the token at most once (a token that already has an id, or whose save is in flight, is not written "
+        "again; the second saver returns only after the first one has set its event; the event is set on every way out, by try/finally), the one add_token call carries exactly the "
+        "token's own tag, value, recoverable flag and the given port, and the token takes the id the database hands out; Token._load builds a fresh token with exactly the tag, "
+        "value and recoverable flag of the row and no persistent id. Together: a plain token saved and loaded has the same type-independent fields. NOT decided by proof: the ~40 "
+        "other _save_additional_params / _load pairs (steps, ports, combinators, CWL processors and commands), container tokens, Workflow.load's wiring, the loading contexts. "
+        "Covered, bounded, by harness/C08.py: random token trees (nested list/object tokens over JSON values with unicode, the same token instance reachable from two containers "
+        "and saved concurrently) and random workflow graphs (scatter, gather, combinator and loop-combinator steps with nested dot / cartesian / loop combinators, plain / job / "
+        "connector ports) are saved and loaded twice through fresh contexts, compared structurally, edited in place to check independence, and deep-copied through the "
+        "WorkflowBuilder. CWL entity types are not generated. One port wired twice to a step does not survive (recorded finding).",
+        "assumptions": [
+            "extern contracts: Database.add_token records its arguments and hands out the next id; asyncio.Event; Token._save_value returns the value (plain tokens)",
+            "rows are records with the columns tag / value / recoverable",
+            "Token._load is verified with cls = Token",
+        ],
+    },
 }
